@@ -32,6 +32,8 @@ def recv(tys=("int",), acc=None, body="pure"):
     return {"k": "recv", "tys": list(tys), "filt": acc is not None or body not in ("pure", "builtin"),
             "acc": list(acc or []), "body": body}
 def tmo(d): return {"k": "timeout", "d": d}
+# a "never" sentinel: a duration beyond 64 bits in the program, the largest 32-bit value in the model and in the traces
+def tmo_huge(): return {"k": "timeout", "d": 2147483647, "huge": True}
 
 def scenario(name, scripts, nw=2, maxtick=0, maxfuel=3, placement="mod", defects=(), **kw):
     d = {"name": name, "nw": nw, "maxtick": maxtick, "maxpid": kw.pop("maxpid", len(scripts)),
@@ -43,7 +45,7 @@ def scenario(name, scripts, nw=2, maxtick=0, maxfuel=3, placement="mod", defects
 # Rendering to Quiver source
 # ---------------------------------------------------------------------------
 # "req" = a request carrying the pid to reply to: [(@'int), 'int]
-TYNAMES = {"req": "[(@'int), 'int]", "int": "'int", "bin": "'bin", "tup": "['int, 'int]", "btup": "['bin, 'bin]", "res": "\\File", "ref": "'ref"}
+TYNAMES = {"req": "[(@'int), 'int]", "int": "'int", "bin": "'bin", "tup": "['int, 'int]", "btup": "['bin, 'bin]", "res": "\\File", "ref": "'ref", "rpair": "[\\File, \\File]"}
 
 def q_val(v):
     k = v["k"]
@@ -72,7 +74,7 @@ class Renderer:
 
     def src(self, s, sid):
         if s["k"] == "await": return "&s%dr%d" % (sid, s["reg"])
-        if s["k"] == "timeout": return str(s["d"])
+        if s["k"] == "timeout": return "100000000000000000000000" if s.get("huge") else str(s["d"])
         ty = " | ".join(TYNAMES[t] for t in s["tys"])
         if len(s["tys"]) > 1: ty = "(" + ty + ")"
         if s.get("body") == "builtin": return "&__integer_add__"     # a builtin as receive source: ['int, 'int], type-only
@@ -80,6 +82,7 @@ class Renderer:
         if s["body"] == "spawn": return "#%s { @#{ 1 }, Ok }" % ty
         if s["body"] == "send": return "#%s { 0 s%dr1, Ok }" % (ty, sid)
         if s["body"] == "fail": return "#%s { [1, 0] __integer_divide__, Ok }" % ty
+        if s["body"] == "effect": return "#%s { [0x2f78, 0, 0] __file_open__, Ok }" % ty    # an effect builtin inside the filter
         if s["body"] == "builtin": return "&__integer_add__"
         branches = " ".join("| =%s => Ok" % q_val(v) for v in s["acc"]) or "| []"
         return "#%s { %s }" % (ty, branches)
